@@ -1,7 +1,7 @@
 SPECIFICATION Spec
 CONSTANTS
   Conns = {1, 2}
-  Calls = {1, 2, 3}
+  Calls = {1, 2}
   Kind <- MCKind
   AppIdsMax = 1
   Tokens = 0
